@@ -1717,6 +1717,10 @@ def main():
     rs2coq_adapters.main(os.path.dirname(dst))
     import rs2coq_query          # part 13: read side of the RBAC / management API -> Gen/QueryGen.v
     rs2coq_query.main(os.path.dirname(dst))
+    import rs2coq_regex          # part 14: regex-based functions of util.rs (+ key_match2/3 up to regex_match) -> Gen/RegexGen.v
+    rs2coq_regex.main(os.path.dirname(dst))
+    import rs2coq_enf2           # part 15: register_g_functions, new_raw / new, enforce wrappers, on / off / emit, emitter.rs -> Gen/Enforcer2Gen.v
+    rs2coq_enf2.main(os.path.dirname(dst))
     import rs2coq_rm             # part 11: DefaultRoleManager + bounded BFS -> Gen/RoleManagerGen.v
     rs2coq_rm.main(os.path.dirname(dst))
 
